@@ -46,8 +46,8 @@ CLAIMED = {
         "bracketed decimal indices with any number of leading zeros, separators . : /, optional leading separator) the "
         "lookup returns exactly that setting (induction over the spelling); the getPath() spelling is one of them; "
         "whatever the walker returns is a non-empty path of an existing setting; after any spelled prefix a missing "
-        "member, an index >= length of any magnitude, or a component below a scalar gives NULL; a failing typed lookup "
-        "has no output. Tied to /repo by lookups on generated trees compared by index path (pointer identity in the "
+        "member, an index >= length of any magnitude, a component below a scalar, or an empty component (two "
+        "separators in a row, anywhere) gives NULL; a failing typed lookup has no output. Tied to /repo by lookups on generated trees compared by index path (pointer identity in the "
         "harness) with the model and with the documented resolution evaluated on the implementation's own dump.",
    note="Trusted: as C05. The C++ getPath() itself is modelled (cpp_path) and not yet run through a C++ harness; the "
         "C-side resolution of its output format is. Aggregates are assumed to have fewer than 2^32 children "
@@ -162,18 +162,24 @@ CLAIMED = {
    technique="Coq proof: bisimulation certificate (vm_compute) + generic soundness lemma; translator-regenerated tables",
    ref="5 (C18), Appendix A"),
  "C03": dict(
-   text="PARTIAL. Proved (Properties_C03.v, closed under the global context, over the translator-regenerated tables): on "
-        "every non-empty input in every start condition the matcher selects one of the 47 documented rules and a lexeme of "
-        "length >= 1 (the scanner loop terminates and never gets stuck), and never flex's default ECHO rule (no stray "
-        "output). Not provable in a Gallina model and therefore only observed, on every run, by the ASan+UBSan+LSan "
-        "harness with per-input deadline: memory safety of the C code and of the flex/bison skeletons, leaks, C stack "
-        "depth, process exit; outcome, stdout capture, descriptor count and a follow-up battery (traverse, look up, write, "
-        "modify, re-read, clear) are compared with the model on byte-mutated configurations, random bytes with NULs, "
-        "nesting to 3000 levels, unterminated constructs, includes of missing files / directories / the file itself.",
+   text="PARTIAL (memory safety is a runtime matter). Proved (Properties_C03.v, closed under the global context, over the "
+        "translator-regenerated tables): on every non-empty input in every start condition the matcher selects one of "
+        "the 47 documented rules and a lexeme of length >= 1, and never flex's default ECHO rule (no stray output); the "
+        "scanner with its include machine is total (C03_scanner_total: for every text and every file system it stops at "
+        "the end of the input or at an error token - the fuel and the include-depth budget of the model always suffice, "
+        "every BEGIN names a start condition, no action is unknown, no path reaches YY_FATAL_ERROR); the parser is total "
+        "on every stream the scanner can deliver (C03_parser_total: POk or PErr, never out of fuel, never an impossible "
+        "tree, never past the stopping token; mutual induction with a type-skeleton invariant of the tree); hence "
+        "config_read / config_read_file answer success, failure or 'nesting beyond the parser stack' for every byte "
+        "string: no hang, no process exit (C03_read_total, C03_read_file_total). Not provable in a Gallina model and "
+        "therefore only observed, on every run, by the ASan+UBSan+LSan harness with per-input deadline: memory safety of "
+        "the C code and of the flex/bison skeletons, leaks, C stack depth; outcome, stdout capture, descriptor count and "
+        "a follow-up battery (traverse, look up, write, modify, re-read, clear) are compared with the model on "
+        "byte-mutated configurations, random bytes with NULs, nesting to 3000 levels, unterminated constructs, includes "
+        "of missing files / directories / the file itself / the same file twice / paths with line feeds.",
    note="Beyond 1900 nesting levels the LALR stack limit (YYMAXDEPTH 10000, 5 entries per open group) may be hit; the "
-        "model then answers 'unspecified' and only safety is checked. Include-machine termination is bounded by "
-        "MAX_INCLUDE_DEPTH in the model (structural recursion on the depth budget).",
-   technique="Coq proof of the scanner-progress and no-default-rule logic (certificates + lemma) + sanitizer correspondence for the rest (partial)",
+        "model then answers RdNest and only safety is checked. Bytes are 0..255 (bytes_ok) in the totality theorems.",
+   technique="Coq proof (scanner progress / no default rule by certificates; totality of scanner, include machine, parser and reader by induction) + sanitizer correspondence for memory safety (partial)",
    ref="5 (C03)"),
  "C08": dict(
    text="Coq theorems (Properties_C08.v, closed under the global context) about numeric_token, the function the "
